@@ -46,7 +46,11 @@ def runFw (cases : List CaseBlock) : IO Unit := do
         | some msg => IO.println s!"mon {pid} FAIL {c.id} {msg}"
       match c.trailer.find? (fun w => w.head? == some "det") with
       | some ("det" :: "ok" :: _) => pure ()
-      | some w => IO.println s!"mon C05 FAIL {c.id} determinism: {String.intercalate " " w}"
+      | some w =>
+        IO.println s!"mon C05 FAIL {c.id} determinism: {String.intercalate " " w}"
+        -- a copy of the framework (clone / clone_from) that panics where the original returns is a totality failure too
+        if w.contains "copy-panicked" then
+          IO.println s!"mon C01 FAIL {c.id} a copy of the framework panicked where the original returned: {String.intercalate " " w}"
       | none => pure ()
       match c.trailer.find? (fun w => w.head? == some "ni") with
       | some ("ni" :: "ok" :: _) => pure ()
